@@ -35,12 +35,12 @@ def obligations(tier):
                 if not th and algo == 1 and (n == 4 or gv[0] != 0): continue      # quick: PLS on the n=3 vectors starting in group 0; all of them for MLR
                 add(f'kfold/{AN[algo]}/n{n}ny{ny}t{t}/groups{"".join(map(str, gv))}', {'HP_CV': 1, 'HP_ALGO': algo, 'HP_N': n, 'HP_NY': ny, 'HP_T': t, 'HP_NLV': 2, 'HP_G': G, 'HP_GROUPS': ','.join(map(str, gv))}, n + 4)
     for algo in (0, 1, 2):
-        grid = [(3, 1, 1, 1, 1, 0), (3, 2, 1, 1, 1, 0), (3, 3, 1, 1, 1, 0), (4, 3, 1, 1, 1, 1), (4, 2, 1, 2, 2, 1), (5, 2, 1, 1, 1, 1), (4, 4, 1, 1, 1, 1)] if not th else \
+        grid = [(3, 1, 1, 1, 1, 0), (3, 2, 1, 1, 1, 0), (3, 3, 1, 1, 1, 0), (4, 3, 1, 1, 1, 1), (4, 2, 1, 2, 2, 1), (5, 2, 1, 1, 1, 1), (4, 4, 1, 1, 1, 1), (3, 2, 1, 2, 1, 1)] if not th else \
                [(3, 1, 1, 1, 1, 0), (3, 2, 1, 1, 1, 0), (3, 3, 1, 1, 1, 0), (4, 2, 1, 1, 1, 0), (4, 3, 1, 1, 1, 0), (4, 3, 1, 1, 2, 1), (4, 3, 2, 1, 1, 1), (4, 2, 2, 2, 2, 1), (5, 2, 1, 1, 1, 1), (5, 3, 1, 3, 3, 1), (4, 4, 1, 1, 1, 1),
                 (5, 4, 2, 2, 2, 1), (6, 4, 1, 2, 4, 1), (6, 5, 1, 1, 2, 1), (5, 5, 1, 1, 1, 1)]
         for (n, g, ny, t, it, distinct) in grid:
             if algo == 2 and ny > 1: continue
-            if it % t: continue
+            if it % t and (n, g, ny, t, it) != (3, 2, 1, 2, 1): continue      # one case with a thread count that does not divide the iteration count (1 iteration on 2 threads): the averaged predictions must still be the per-object predictions
             add(f'bootstrap/{AN[algo]}/n{n}g{g}ny{ny}t{t}it{it}/{"distinct" if distinct else "arbitrary"}rng', {'HP_CV': 2, 'HP_ALGO': algo, 'HP_N': n, 'HP_NY': ny, 'HP_T': t, 'HP_NLV': 2, 'HP_G': g, 'HP_IT': it, 'HP_RNG_DISTINCT': distinct},
                 (2 * n + 3) if not distinct else n + 4, ignore=('random_kfold_group_generator.unwind',) if not distinct else ())
     # result matrices handed in already populated (re-validation): same obligations
